@@ -16,7 +16,7 @@
 use std::{
     net::{self},
     sync::Arc,
-    time::{Duration, SystemTime},
+    time::Duration,
 };
 
 use scion_quic::socket::{BoxedSocketError, GenericScionUdpSocket};
@@ -524,7 +524,7 @@ impl<P: PathManager> UdpScionSocket<P> {
             .path_timeout(
                 self.socket.local_addr().isd_asn(),
                 remote_addr.isd_asn(),
-                SystemTime::now(),
+                scion_sdk_utils::verif::system_now(),
                 self.connect_timeout,
             )
             .await?;
@@ -566,7 +566,7 @@ impl<P: PathManager> UdpScionSocket<P> {
             .path_wait(
                 self.socket.local_addr().isd_asn(),
                 destination.isd_asn(),
-                SystemTime::now(),
+                scion_sdk_utils::verif::system_now(),
             )
             .await?;
         self.socket.send_to_via(payload, destination, path).await
@@ -616,7 +616,7 @@ impl<P: PathManager> UdpScionSocket<P> {
                 self.pather.register_path(
                     self.socket.local_addr().isd_asn(),
                     sender_addr.isd_asn(),
-                    SystemTime::now(),
+                    scion_sdk_utils::verif::system_now(),
                     reversed_path,
                 );
             }
